@@ -30,6 +30,12 @@ type File struct {
 	Body    []byte // opaque body when Secs == nil
 	Secs    []*Sec
 	BadSums bool // opaque files may carry arbitrary checksums
+	// LargeForm: an opaque file written in the FFSv3 large form (size field 0xFFFFFF, 64-bit size, 32-byte
+	// header) although it is smaller than 16 MiB; fiano keeps it as it is
+	LargeForm bool
+	// BigSecs: the sections add up to 16 MiB or more (the file then has a 32-byte header); set by the
+	// caller, only used for the data alignment computation of the volume layout
+	BigSecs bool
 	IsPad   bool
 }
 
@@ -42,6 +48,9 @@ type Vol struct {
 	BlockSize uint32
 	Blocks    uint32 // Length = BlockSize*Blocks (computed when 0)
 	ExtHeader bool
+	// ExtraBlocks: block-map entries after the first one (each a run of equal-sized blocks); the first
+	// entry's count is chosen so that the map still adds up to the volume length
+	ExtraBlocks [][2]uint32
 	ExtName   [16]byte
 	ExtData   []byte // extra bytes of the extended header after the 20 fixed ones
 	Files     []*File
@@ -123,9 +132,14 @@ func (e *emitter) sec(s *Sec, base int) []byte {
 		body = s.Body
 	}
 	n := 4 + len(body)
-	out := make([]byte, 4, n)
+	out := make([]byte, 4, n+4)
 	put3(out, n)
 	out[3] = s.Type
+	if n >= 0xFFFFFF { // extended section header: 0xFFFFFF, type, 32-bit size
+		n += 4
+		put3(out, 0xFFFFFF)
+		out = binary.LittleEndian.AppendUint32(out, uint32(n))
+	}
 	out = append(out, body...)
 	e.fields = append(e.fields, Field{"sec.size", base, 3, n, 4}, Field{"sec.type", base + 3, 1, n - 3, 4})
 	if s.Type == 0x02 {
@@ -150,7 +164,7 @@ func (e *emitter) file(f *File, base int) []byte {
 	}
 	hl := 24
 	size := hl + len(body)
-	large := size >= 0xFFFFFF
+	large := size >= 0xFFFFFF || (f.LargeForm && f.Secs == nil)
 	attr := f.Attr &^ 1
 	if large {
 		hl = 32
@@ -217,7 +231,7 @@ func (e *emitter) vol(v *Vol, base int) []byte {
 	if v.Attrs&0x800 != 0 {
 		pol = 0xFF
 	}
-	hdrLen := 56 + 16 // one block entry + terminator
+	hdrLen := 56 + 16 + 8*len(v.ExtraBlocks) // block entries + terminator
 	out := make([]byte, hdrLen)
 	copy(out, v.Zero[:])
 	copy(out[16:], v.FSGUID[:])
@@ -243,7 +257,10 @@ func (e *emitter) vol(v *Vol, base int) []byte {
 		}
 		hl := 24
 		// large files: header is 32 bytes
-		if f.Secs == nil && 24+len(f.Body) >= 0xFFFFFF {
+		if f.Secs == nil && (24+len(f.Body) >= 0xFFFFFF || f.LargeForm) {
+			hl = 32
+		}
+		if f.Secs != nil && f.BigSecs {
 			hl = 32
 		}
 		if a := AttrAlign(f.Attr); a != 1 {
@@ -267,8 +284,13 @@ func (e *emitter) vol(v *Vol, base int) []byte {
 	if bs == 0 {
 		bs = 64
 	}
-	length := align(len(out), bs)
-	if v.Blocks != 0 && int(v.Blocks)*bs >= len(out) {
+	extra := 0
+	for _, b := range v.ExtraBlocks {
+		extra += int(b[0]) * int(b[1])
+	}
+	// the first entry covers what the further entries do not (at least one block)
+	length := extra + align(max(len(out)-extra, bs), bs)
+	if v.Blocks != 0 && int(v.Blocks)*bs >= len(out) && len(v.ExtraBlocks) == 0 {
 		length = int(v.Blocks) * bs
 	}
 	for len(out) < length {
@@ -276,15 +298,19 @@ func (e *emitter) vol(v *Vol, base int) []byte {
 	}
 	v.Length = length
 	binary.LittleEndian.PutUint64(out[32:], uint64(length))
-	binary.LittleEndian.PutUint32(out[56:], uint32(length/bs))
+	binary.LittleEndian.PutUint32(out[56:], uint32((length-extra)/bs))
 	binary.LittleEndian.PutUint32(out[60:], uint32(bs))
+	for i, b := range v.ExtraBlocks {
+		binary.LittleEndian.PutUint32(out[64+8*i:], b[0])
+		binary.LittleEndian.PutUint32(out[68+8*i:], b[1])
+	}
 	binary.LittleEndian.PutUint16(out[50:], 0)
 	binary.LittleEndian.PutUint16(out[50:], 0-sum16(out[:hdrLen]))
 	e.fields = append(e.fields,
 		Field{"fv.length", base + 32, 8, length - 32, hdrLen}, Field{"fv.attrs", base + 44, 4, length - 44, hdrLen},
 		Field{"fv.hdrlen", base + 48, 2, length - 48, hdrLen}, Field{"fv.cksum", base + 50, 2, length - 50, hdrLen},
 		Field{"fv.exthdroff", base + 52, 2, length - 52, hdrLen}, Field{"fv.blk.count", base + 56, 4, length - 56, hdrLen},
-		Field{"fv.blk.size", base + 60, 4, length - 60, hdrLen}, Field{"fv.blk.term", base + 64, 8, length - 64, hdrLen},
+		Field{"fv.blk.size", base + 60, 4, length - 60, hdrLen}, Field{"fv.blk.term", base + hdrLen - 8, 8, length - hdrLen + 8, hdrLen},
 		Field{"fv.guid0", base + 16, 1, length - 16, hdrLen})
 	return out
 }
@@ -464,6 +490,11 @@ func GenVol(r *Rng, o Opts, depth int) *Vol {
 	if depth > 0 {
 		v.BlockSize = uint32(r.Pick(8, 16, 64))
 	}
+	if r.Chance(1, 6) { // a block map with several entries
+		for i, n := 0, r.Pick(1, 1, 2); i < n; i++ {
+			v.ExtraBlocks = append(v.ExtraBlocks, [2]uint32{uint32(r.Pick(1, 1, 2, 3)), uint32(r.Pick(8, 16, 64))})
+		}
+	}
 	if r.Chance(1, 4) {
 		v.ExtHeader = true
 		copy(v.ExtName[:], r.Bytes(16))
@@ -472,6 +503,13 @@ func GenVol(r *Rng, o Opts, depth int) *Vol {
 	n := r.Pick(0, 1, 1, 2, 3, 5)
 	for i := 0; i < n; i++ {
 		v.Files = append(v.Files, GenFile(r, o, depth))
+	}
+	if v.FSGUID == FFS3 {
+		for _, f := range v.Files {
+			if f.Secs == nil && !f.IsPad && r.Chance(1, 5) {
+				f.LargeForm = true
+			}
+		}
 	}
 	v.FreeSpace = r.Pick(0, 0, 8, 24, 100, 300)
 	if r.Chance(1, 10) { // a volume that fiano does not parse beyond the header
